@@ -344,6 +344,13 @@ def c04(tier, seed):
     scns += clone_default_scripts(small + [8], "C04", True)
     scns += iter_cb_fault_scripts(small, "C04")
     scns += collect_scripts([0, 1, 2, 3] if tier == "quick" else [0, 1, 2, 3, 4, 8], "C04", True, extra_hints=False)
+    # the `internals` builders / consumer used directly and abandoned at every position 0..=N
+    for n in ([0, 1, 2, 3, 4] if tier == "quick" else [0, 1, 2, 3, 4, 5, 8, 16]):
+        for pos in range(0, n + 1):
+            for op in ("builder_abandon", "intrusive_abandon"):
+                scns.append({"case": op, "prop": "C04", "ety": "tk", "steps": [{"op": op, "n": n, "arg": pos}], "d": {"op": op, "n": n, "position": pos}})
+            scns.append({"case": "consumer_abandon", "prop": "C04", "ety": "tk", "steps": [_mk("arr", n), {"op": "consumer_abandon", "recv": [1], "arg": pos}],
+                         "d": {"op": "consumer_abandon", "n": n, "position": pos}})
     c.cov["exhaustive"] = True
     c.cov["bounds"] = {"model N": "0..%d" % (4 if tier == "quick" else 6), "crash points": "every callback index of every closure / Clone::clone / Iterator::next call"}
     c.conform(binary, with_etys(scns, ["tk", "zst", "plain"]), "panics", nontrivial=lambda s: True)
@@ -615,6 +622,7 @@ VIEW_ETYS = ["unit", "u8", "u32", "u64", "u8u16", "b24", "owned"]
 SLICE_APIS = ["from_slice", "try_from_slice", "tryfrom_ref", "from_mut_slice", "try_from_mut_slice", "tryfrom_mut"]
 WHOLE_APIS = ["as_slice", "deref", "asref_slice", "borrow", "as_mut_slice", "deref_mut", "asmut_slice", "borrow_mut", "iter", "ref_into_iter", "iter_mut", "mut_into_iter",
               "asref_array", "asmut_array", "from_array_ref", "from_array_mut"]
+INDEX_APIS = ["index", "index_mut", "get"]
 CHUNK_APIS = ["chunks_from_slice", "chunks_from_slice_mut"]
 CAST_APIS = ["slice_from_chunks", "slice_from_chunks_mut", "from_chunks", "from_chunks_mut", "into_chunks", "into_chunks_mut"]
 HLENS = [0, 1, 2, 3, 4, 5, 6, 7, 8, 9, 10, 11, 12, 16, 33, 97, 1024]
@@ -645,7 +653,7 @@ def views_from_model(c, cfg, keep):
 def c02(tier, seed):
     c = Check("C02", tier, seed)
     binary = vlib.build_harness()
-    rows = views_from_model(c, "MC_Views", lambda d: d["api"] in WHOLE_APIS + SLICE_APIS)
+    rows = views_from_model(c, "MC_Views", lambda d: d["api"] in WHOLE_APIS + SLICE_APIS + INDEX_APIS)
     etys = ["unit", "u8", "u64", "owned"] if tier == "quick" else VIEW_ETYS
     big = [9, 10, 11, 12, 16, 97] if tier == "quick" else [5, 6, 9, 10, 11, 12, 16, 33, 97, 1024]
     scns = []
@@ -660,6 +668,10 @@ def c02(tier, seed):
             for l in sorted(set([0, n - 1, n, n + 1, 2 * n, n + 7])):
                 for e in etys[:3]:
                     scns.append(view_scn("C02", api, e, n, l))
+        for api in INDEX_APIS:
+            for i in sorted(set([0, n // 2, n - 1, n, n + 1])):
+                for e in etys[:3]:
+                    scns.append(view_scn("C02", api, e, n, i))
     c.cov["exhaustive"] = True
     c.conform(binary, scns, "views", sub="views")
     # by-value conversions to and from [T; N] and same-typed tuples keep every element at its position
